@@ -13,7 +13,8 @@ const D: u32 = 1; // direct subscriber registered at the same point
 const C: u32 = 2; // the channeled subscriber
 
 /// end: how the subscription ends — 0 stop() only, 1 unsubscribe() by a thread then stop(),
-/// 2 unsubscribe() by a thread racing stop()
+/// 2 unsubscribe() by a thread racing stop(), 3 stop() only, but the subscriber is attached by a
+/// thread racing stop() (and the producers)
 pub fn check(r: &ExecResult, pol: Pol, gated: bool, end: u8) -> Vec<Finding> {
     let mut f = sanity(r);
     let p = pipe(r);
@@ -38,10 +39,15 @@ pub fn check(r: &ExecResult, pol: Pol, gated: bool, end: u8) -> Vec<Finding> {
         f.push(fnd("chan-direct-sub-affected", format!("direct subscriber saw [{}] instead of [{}]", fmt_stream(&d), fmt_stream(&p.expected_stream()))));
     }
     // the stream
-    let ended_by_unsub = end >= 1;
+    let ended_by_unsub = end == 1 || end == 2;
     match pol {
         Pol::Block => {
-            if ended_by_unsub {
+            if end == 3 {
+                // joined late: a gap-free run of the direct stream that reaches its end
+                if !(c.len() <= d.len() && d[d.len() - c.len()..] == c[..]) {
+                    f.push(fnd("chan-block-stream", format!("channeled(Block), attached while the store was running, saw [{}], not a tail of the direct stream [{}]", fmt_stream(&c), fmt_stream(&d))));
+                }
+            } else if ended_by_unsub {
                 if !(c.len() <= d.len() && d[..c.len()] == c[..]) {
                     f.push(fnd("chan-block-stream", format!("channeled(Block) saw [{}], not a prefix of the direct stream [{}]", fmt_stream(&c), fmt_stream(&d))));
                 }
@@ -53,7 +59,7 @@ pub fn check(r: &ExecResult, pol: Pol, gated: bool, end: u8) -> Vec<Finding> {
             if !is_subsequence(&c, &d) {
                 f.push(fnd("chan-drop-stream", format!("channeled({}) saw [{}], not an in-order subsequence of [{}]", pol.s(), fmt_stream(&c), fmt_stream(&d))));
             }
-            if pol == Pol::Oldest && !ended_by_unsub && r.timeouts == 0 {
+            if pol == Pol::Oldest && !ended_by_unsub && end != 3 && r.timeouts == 0 {
                 if let Some(last) = d.last() {
                     if c.last() != Some(last) {
                         f.push(fnd("chan-oldest-newest-lost", format!("under DropOldest the newest notification (action {}) was not delivered; delivered [{}]", last.0, fmt_stream(&c))));
@@ -125,19 +131,22 @@ pub fn scenarios(tier: Tier) -> Vec<Scenario> {
     let mut v = vec![];
     let mut add = |cap: usize, pol: Pol, np: u32, k: u32, gated: bool, end: u8, bound: u32| {
         let mut prog = producers(Program::new(StoreSpec::new(1, 4, Pol::Block)), np, k, |_, id| Op::Dispatch(Act::new(id)));
-        if end >= 1 {
+        if end == 1 || end == 2 {
             prog = prog.thread("unsub", vec![Op::Unsub(C)]);
         }
-        let mut main = vec![
-            Op::AddSub { id: D, gated: false, reads: false },
-            Op::Subscribed { id: C, cap, pol, gated, reads: false },
-            Op::SpawnAll,
-        ];
+        if end == 3 {
+            prog = prog.thread("joiner", vec![Op::Subscribed { id: C, cap, pol, gated, reads: false }]);
+        }
+        let mut main = vec![Op::AddSub { id: D, gated: false, reads: false }];
+        if end != 3 {
+            main.push(Op::Subscribed { id: C, cap, pol, gated, reads: false });
+        }
+        main.push(Op::SpawnAll);
         if gated {
             // let everything that can happen happen while the subscriber is parked, then release it
             main.extend([Op::Quiesce, Op::OpenGate(2, 64)]);
         }
-        if end == 2 {
+        if end >= 2 {
             main.extend([Op::Stop, Op::JoinAll]);
         } else {
             main.extend([Op::JoinAll, Op::Stop]);
@@ -160,9 +169,14 @@ pub fn scenarios(tier: Tier) -> Vec<Scenario> {
                 add(1, pol, 1, 2, false, 2, 2);
             }
             add(2, Pol::Oldest, 2, 1, false, 0, 2);
+            add(1, Pol::Block, 1, 2, false, 3, 2);
+            add(1, Pol::Oldest, 1, 1, false, 3, 2);
         }
         Tier::Thorough => {
             for pol in Pol::ALL {
+                add(1, pol, 1, 1, false, 3, 4);
+                add(1, pol, 1, 2, false, 3, 3);
+                add(2, pol, 2, 1, false, 3, 2);
                 for cap in 1..=2usize {
                     for &(np, k) in &[(1u32, 1u32), (1, 2), (1, 3), (2, 1), (2, 2)] {
                         for gated in [false, true] {
